@@ -179,12 +179,20 @@ type Enc struct {
 	paramTerms map[string]TT
 	assumeNote []string
 	usedContracts map[string]bool
+	immut map[string]bool
+	baseAlloc map[string]Term
+	fieldInfo map[string]fieldRef
+}
+
+type fieldRef struct {
+	st  types.Type
+	idx int
 }
 
 func NewEnc(w *World, fn *ssa.Function, c *Contract) *Enc {
 	return &Enc{w: w, top: fn, topCon: c, declared: map[string]bool{}, heapSort: map[string]string{}, typeIDs: map[string]int{},
 		typeOf: map[string]types.Type{}, structs: map[string]*types.Struct{}, counters: map[string]int{}, strConsts: map[string]string{},
-		ifaceImplFacts: map[string]bool{}, boxes: map[string]string{}, maxInline: 4, paramTerms: map[string]TT{}, usedContracts: map[string]bool{}}
+		ifaceImplFacts: map[string]bool{}, boxes: map[string]string{}, maxInline: 4, paramTerms: map[string]TT{}, usedContracts: map[string]bool{}, baseAlloc: map[string]Term{}, fieldInfo: map[string]fieldRef{}}
 }
 
 func (e *Enc) problem(f string, a ...interface{}) {
@@ -309,7 +317,8 @@ func (e *Enc) structSort(t types.Type, u *types.Struct) string {
 		fields = append(fields, fmt.Sprintf("(%s_f%d %s)", name, i, e.sortOf(u.Field(i).Type())))
 	}
 	if u.NumFields() == 0 {
-		fields = append(fields, fmt.Sprintf("(%s_dummy Int)", name))
+		e.decls = append(e.decls, fmt.Sprintf("(declare-datatypes ((%s 0)) (((mk_%s))))", name, name))
+		return name
 	}
 	e.decls = append(e.decls, fmt.Sprintf("(declare-datatypes ((%s 0)) (((mk_%s %s))))", name, name, strings.Join(fields, " ")))
 	return name
@@ -343,7 +352,7 @@ func (e *Enc) zeroOfSort(s string, t types.Type) Term {
 			parts = append(parts, e.zero(u.Field(i).Type()).S)
 		}
 		if u.NumFields() == 0 {
-			parts = append(parts, "0")
+			return Term{"mk_" + s, s}
 		}
 		return Term{"(mk_" + s + " " + strings.Join(parts, " ") + ")", s}
 	}
@@ -470,7 +479,7 @@ func (e *Enc) typeFacts(x Term, t types.Type, alloc Term) []Term {
 	case *types.Signature:
 		out = append(out, T(SBool, "(>= %s 0)", x.S))
 	case *types.Slice:
-		out = append(out, T(SBool, "(slice_wf %s)", x.S))
+		out = append(out, T(SBool, "(slice_wf %s %d)", x.S, maxExisting(u.Elem())))
 		if alloc.S != "" {
 			out = append(out, T(SBool, "(< (s_arr %s) %s)", x.S, alloc.S))
 		}
@@ -532,9 +541,49 @@ func (e *Enc) heapGet(st *State, key string) Term {
 	t := Term{name, srt}
 	if key == "$alloc" {
 		e.declare(fmt.Sprintf("(assert (> %s 0))", name))
+		if _, ok := e.baseAlloc[st.base]; !ok {
+			e.baseAlloc[st.base] = t
+		}
 	}
 	st.heaps[key] = t
+	e.freshHeapFacts(st, key, t)
 	return t
+}
+
+// freshHeapFacts: object invariants of the parameters in a heap component that has just been introduced (function entry
+// or after a havoc): reference-like fields of the objects the parameters point to are well formed and allocated.
+func (e *Enc) freshHeapFacts(st *State, key string, h Term) {
+	fi, ok := e.fieldInfo[key]
+	if !ok {
+		return
+	}
+	ft := fi.st.Underlying().(*types.Struct).Field(fi.idx).Type()
+	switch ft.Underlying().(type) {
+	case *types.Pointer, *types.Slice, *types.Map, *types.Interface:
+	default:
+		return
+	}
+	alloc, ok := e.baseAlloc[st.base]
+	if !ok {
+		alloc = e.heapGet(st, e.allocKey())
+	}
+	fs := e.sortOf(ft)
+	var names []string
+	for n := range e.paramTerms {
+		names = append(names, n)
+	}
+	sort.Strings(names)
+	for _, n := range names {
+		p := e.paramTerms[n]
+		pt, ok := p.T.Underlying().(*types.Pointer)
+		if !ok || !types.Identical(pt.Elem(), fi.st) {
+			continue
+		}
+		v := sel(h, p.Term, fs)
+		for _, f := range e.typeFacts(v, ft, alloc) {
+			e.assume(tTrue, implies(T(SBool, "(> %s 0)", p.S), f))
+		}
+	}
 }
 
 func (e *Enc) heapSet(st *State, key string, v Term) {
@@ -560,6 +609,9 @@ func (e *Enc) fieldKey(structType types.Type, idx int) (key string, fsort string
 	key = "F:" + name + "." + f.Name()
 	fsort = e.sortOf(f.Type())
 	e.regHeap(key, arraySort(SInt, fsort))
+	if _, ok := e.fieldInfo[key]; !ok {
+		e.fieldInfo[key] = fieldRef{structType, idx}
+	}
 	return key, fsort, f.Type()
 }
 
@@ -573,13 +625,56 @@ func (e *Enc) ghostKey(name string) (string, string) {
 	return e.regHeap("ghost:"+name, arraySort(SInt, g.Sort)), g.Sort
 }
 
+// immutableKeys: heap components declared immutable (never written after construction; see checkImmutable).
+func (e *Enc) immutableKeys() map[string]bool {
+	if e.immut != nil {
+		return e.immut
+	}
+	e.immut = map[string]bool{}
+	for _, d := range e.w.CS.Immutable {
+		if strings.HasPrefix(d.Spec, "ghost ") {
+			name := strings.TrimSpace(strings.TrimPrefix(d.Spec, "ghost "))
+			if e.w.CS.Ghosts[name] != nil {
+				k, _ := e.ghostKey(name)
+				e.immut[k] = true
+			}
+			continue
+		}
+		i := strings.LastIndex(d.Spec, ".")
+		if i < 0 {
+			continue
+		}
+		t, err := e.w.lookupType(d.Spec[:i], d.Pkg)
+		if err != nil {
+			e.problem("immutable %s: %v", d.Spec, err)
+			continue
+		}
+		st, ok := t.Underlying().(*types.Struct)
+		if !ok {
+			continue
+		}
+		for f := 0; f < st.NumFields(); f++ {
+			if st.Field(f).Name() == d.Spec[i+1:] {
+				k, _, _ := e.fieldKey(t, f)
+				e.immut[k] = true
+			}
+		}
+	}
+	return e.immut
+}
+
 func (e *Enc) havocAll(st *State) {
 	e.nfresh++
 	alloc := e.heapGet(st, e.allocKey())
-	st.heaps = map[string]Term{}
+	keep := map[string]Term{}
+	for k := range e.immutableKeys() {
+		keep[k] = e.heapGet(st, k)
+	}
+	st.heaps = keep
 	st.base = fmt.Sprintf("h%d", e.nfresh)
 	na := e.heapGet(st, "$alloc")
 	e.assume(tTrue, T(SBool, "(>= %s %s)", na.S, alloc.S))
+	e.baseAlloc[st.base] = na
 }
 
 func (e *Enc) allocRef(st *State, guard Term) Term {
@@ -614,6 +709,11 @@ func (e *Enc) mergeStates(conds []Term, sts []*State) *State {
 		}
 		e.nfresh++
 		out.base = fmt.Sprintf("j%d", e.nfresh)
+		defer func() {
+			if a, ok := out.heaps["$alloc"]; ok {
+				e.baseAlloc[out.base] = a
+			}
+		}()
 	}
 	var ks []string
 	for k := range keys {
@@ -675,4 +775,25 @@ func (e *Enc) unbox(t types.Type, x Term) Term {
 // implementsFact: does concrete type id implement interface it?
 func (e *Enc) implPred(it types.Type) string {
 	return "impl_" + mangle(typeKey(it))
+}
+
+var gcSizes = types.SizesFor("gc", "amd64")
+
+// maxElems: the largest number of elements a slice of this element type can have (runtime maxAlloc = 2^48 bytes on amd64).
+func maxElems(el types.Type) int64 {
+	sz := gcSizes.Sizeof(el)
+	if sz <= 0 {
+		sz = 1
+	}
+	return (int64(1) << 48) / sz
+}
+
+// maxExisting: assumed bound on the number of elements of any slice that exists (2^40; such a slice of one-byte
+// elements already needs a terabyte).  Sums of a few existing lengths therefore stay far below maxElems.
+func maxExisting(el types.Type) int64 {
+	m := maxElems(el) / 8
+	if m > int64(1)<<40 {
+		m = int64(1) << 40
+	}
+	return m
 }
